@@ -2,7 +2,8 @@
    consumers.  Statements only.  Consumers receive labels; LC i / LCW i / LT i
    stand for the serialised bytes of published message number i (RTMP chunks
    without / with @setDataFrame, FLV tag), see Group/GroupFanout.v. *)
-From Lal Require Import Common.LBytes Group.GroupMsg Group.GroupGopCache Group.GroupFanout Group.GroupFanoutProofs.
+From Lal Require Import Common.LBytes Group.GroupMsg Group.GroupGopCache Group.GroupFanout Group.GroupFanoutProofs
+  Group.GroupFanoutMergeProofs.
 Open Scope N_scope.
 
 (* Contiguity.  Take any configuration, any history h0 after which consumer
@@ -45,6 +46,17 @@ Proof.
   - intro H0. unfold pending_for. subst s. rewrite (merge_inv_run cf h H0). now destruct (is_rtmp c && admitted c).
 Qed.
 Print Assumptions c01_trailing.
+
+(* ... and the bytes it holds back are fewer than the configured merge-write
+   size: the writer's counter equals the total chunk size of the pending units
+   (each the unit of a message published so far) and stays below the limit. *)
+Theorem c01_merge_bound : forall cf h,
+  let s := run cf h in
+  g_merge_size s = total_size cf (pubs h) (g_merge s) /\
+  Forall (fun l => exists i, l = LC i /\ (i < length (pubs h))%nat) (g_merge s) /\
+  (0 < cf_merge cf -> g_merge_size s < cf_merge cf).
+Proof. intros cf h. destruct (merge_ok_run cf h) as (_ & H2 & H3 & H4). cbv zeta. auto. Qed.
+Print Assumptions c01_merge_bound.
 
 (* The order in which the subscriber set is iterated (a Go map) does not
    matter: permuting it commutes with every step. *)
